@@ -16,6 +16,11 @@ def to_smt2(ob):
     for h in ob.hyps:
         s.add(h)
     s.add(z3.Not(ob.goal))
+    for label, term in getattr(ob, 'probes', {}).items():
+        try:
+            s.add(z3.Const('probe!' + label, term.sort()) == term)
+        except Exception:
+            pass
     return s.to_smt2()
 
 
@@ -54,6 +59,15 @@ def solve_one(args):
     idx, text, tier = args
     t0 = time.time()
     log = []
+    if tier == 'cover':
+        try:
+            s = z3.Solver()
+            s.set('timeout', 3000)
+            s.from_string(text)
+            r = s.check()
+            return idx, str(r), 'z3-5.1(api)', time.time() - t0, None, log
+        except Exception as e:
+            return idx, 'unknown', None, time.time() - t0, None, [('z3', 'error:' + str(e)[:100], 0)]
     # 1. in-process z3 (z3-solver 5.1)
     try:
         s = z3.Solver()
